@@ -1183,9 +1183,9 @@ impl<Backing : AsRef<[u32]> + AsMut<[u32]>> DrawTarget<Backing> {
     pub fn write_png<P: AsRef<std::path::Path>>(&self, path: P) -> Result<(), png::EncodingError> {
         let file = File::create(path)?;
 
-        let w = &mut BufWriter::new(file);
+        let mut w = BufWriter::new(file);
 
-        let mut encoder = png::Encoder::new(w, self.width as u32, self.height as u32);
+        let mut encoder = png::Encoder::new(&mut w, self.width as u32, self.height as u32);
         encoder.set_color(png::ColorType::Rgba);
         encoder.set_depth(png::BitDepth::Eight);
         let mut writer = encoder.write_header()?;
@@ -1210,7 +1210,12 @@ impl<Backing : AsRef<[u32]> + AsMut<[u32]>> DrawTarget<Backing> {
             output.push(a as u8);
         }
 
-        writer.write_image_data(&output)
+        writer.write_image_data(&output)?;
+        // finish the stream and flush explicitly: both would otherwise happen in Drop,
+        // where a failing write is silently ignored
+        writer.finish()?;
+        std::io::Write::flush(&mut w)?;
+        Ok(())
     }
 }
 
